@@ -1,8 +1,500 @@
 package main
 
 // Ground facts: package-level tables written once by init functions (no input => exactly one
-// execution); dumped from the freshly built packages on every run and checked exhaustively.
+// execution, so running the initialiser *is* its complete symbolic execution).  On every run
+// an in-package test injected with `go test -overlay` dumps the tables named by `ground`
+// directives from the freshly built package; the values become constant tables of the VCs.
+// A `frozen` obligation checks that no function outside package initialisation writes them.
+
+import (
+	"encoding/json"
+	"fmt"
+	"go/types"
+	"math/big"
+	"os"
+	"os/exec"
+	"path/filepath"
+	"sort"
+	"strings"
+
+	"golang.org/x/tools/go/ssa"
+)
+
+type Table struct {
+	Sort *Sort
+	Data interface{} // nested []interface{} of strings (decimal) / bools
+}
+
+func (p *Program) dumpGround(verif string) error {
+	p.ground = &GroundData{Vals: map[string]interface{}{}}
+	byPkg := map[string][]string{}
+	for g := range p.cs.Grounds {
+		i := strings.Index(g, ".")
+		byPkg[g[:i]] = append(byPkg[g[:i]], g[i+1:])
+	}
+	if len(byPkg) == 0 {
+		return nil
+	}
+	work := filepath.Join(os.TempDir(), "govc-work", fmt.Sprintf("ground-%d", os.Getpid()))
+	os.MkdirAll(work, 0o755)
+	defer os.RemoveAll(work)
+	var pkgs []string
+	for k := range byPkg {
+		pkgs = append(pkgs, k)
+	}
+	sort.Strings(pkgs)
+	type res struct {
+		pkg string
+		err error
+		out map[string]interface{}
+	}
+	ch := make(chan res, len(pkgs))
+	for _, pkg := range pkgs {
+		pkg := pkg
+		go func() {
+			names := byPkg[pkg]
+			sort.Strings(names)
+			tp := p.pkgByName(pkg)
+			if tp == nil {
+				ch <- res{pkg, fmt.Errorf("ground: unknown package %s", pkg), nil}
+				return
+			}
+			var b strings.Builder
+			fmt.Fprintf(&b, "package %s\n\nimport (\n\t\"encoding/json\"\n\t\"os\"\n\t\"reflect\"\n\t\"strconv\"\n\t\"testing\"\n)\n\n", tp.Name())
+			b.WriteString("func TestGovcGroundDump(t *testing.T) {\n\tout := map[string]interface{}{}\n")
+			for _, n := range names {
+				if tp.Scope().Lookup(n) == nil {
+					ch <- res{pkg, fmt.Errorf("ground: %s.%s does not exist", pkg, n), nil}
+					return
+				}
+				fmt.Fprintf(&b, "\tout[%q] = govcDump(reflect.ValueOf(&%s).Elem())\n", n, n)
+			}
+			b.WriteString("\tdata, _ := json.Marshal(out)\n\tif err := os.WriteFile(os.Getenv(\"GOVC_DUMP_OUT\"), data, 0o644); err != nil {\n\t\tt.Fatal(err)\n\t}\n}\n\n")
+			b.WriteString(`func govcDump(v reflect.Value) interface{} {
+	switch v.Kind() {
+	case reflect.Array, reflect.Slice:
+		out := make([]interface{}, v.Len())
+		for i := 0; i < v.Len(); i++ {
+			out[i] = govcDump(v.Index(i))
+		}
+		return out
+	case reflect.Struct:
+		out := map[string]interface{}{}
+		for i := 0; i < v.NumField(); i++ {
+			out[v.Type().Field(i).Name] = govcDump(v.Field(i))
+		}
+		return out
+	case reflect.Int, reflect.Int8, reflect.Int16, reflect.Int32, reflect.Int64:
+		return strconv.FormatInt(v.Int(), 10)
+	case reflect.Uint, reflect.Uint8, reflect.Uint16, reflect.Uint32, reflect.Uint64, reflect.Uintptr:
+		return strconv.FormatUint(v.Uint(), 10)
+	case reflect.Bool:
+		return v.Bool()
+	case reflect.String:
+		return "s:" + v.String()
+	case reflect.Ptr:
+		if v.IsNil() {
+			return nil
+		}
+		return govcDump(v.Elem())
+	}
+	return nil
+}
+`)
+			dir := filepath.Join(p.root, "internal", pkg)
+			tf := filepath.Join(work, "dump_"+pkg+"_test.go")
+			os.WriteFile(tf, []byte(b.String()), 0o644)
+			ov := map[string]interface{}{"Replace": map[string]string{filepath.Join(dir, "zz_govc_dump_test.go"): tf}}
+			ovData, _ := json.Marshal(ov)
+			ovf := filepath.Join(work, "ov_"+pkg+".json")
+			os.WriteFile(ovf, ovData, 0o644)
+			outf := filepath.Join(work, "dump_"+pkg+".json")
+			cmd := exec.Command("go", "test", "-mod=mod", "-overlay", ovf, "-vet=off", "-count=1", "-timeout", "120s", "-run", "^TestGovcGroundDump$", ".")
+			cmd.Dir = dir
+			cmd.Env = append(os.Environ(), "GOFLAGS=-mod=mod", "GOPROXY=off", "GOSUMDB=off", "GOTOOLCHAIN=local", "GOVC_DUMP_OUT="+outf)
+			outb, err := cmd.CombinedOutput()
+			if err != nil {
+				ch <- res{pkg, fmt.Errorf("ground dump of %s failed: %v\n%s", pkg, err, truncate(string(outb), 2000)), nil}
+				return
+			}
+			data, err := os.ReadFile(outf)
+			if err != nil {
+				ch <- res{pkg, err, nil}
+				return
+			}
+			var m map[string]interface{}
+			if err := json.Unmarshal(data, &m); err != nil {
+				ch <- res{pkg, err, nil}
+				return
+			}
+			ch <- res{pkg, nil, m}
+		}()
+	}
+	var firstErr error
+	for range pkgs {
+		r := <-ch
+		if r.err != nil {
+			if firstErr == nil {
+				firstErr = r.err
+			}
+			continue
+		}
+		for k, v := range r.out {
+			p.ground.Vals[r.pkg+"."+k] = v
+		}
+	}
+	return firstErr
+}
+
+// groundLeaf returns the dumped data of one leaf cell ("g:pkg.name.path") as nested lists
+func (p *Program) groundLeaf(key string) (interface{}, bool) {
+	if p.ground == nil || !strings.HasPrefix(key, "g:") {
+		return nil, false
+	}
+	k := key[2:]
+	// find the global: longest prefix "pkg.name"
+	parts := strings.SplitN(k, ".", 3)
+	if len(parts) < 2 {
+		return nil, false
+	}
+	gname := parts[0] + "." + parts[1]
+	data, ok := p.ground.Vals[gname]
+	if !ok {
+		return nil, false
+	}
+	tp := p.pkgByName(parts[0])
+	if tp == nil {
+		return nil, false
+	}
+	obj := tp.Scope().Lookup(parts[1])
+	if obj == nil {
+		return nil, false
+	}
+	leaf := ""
+	if len(parts) == 3 {
+		leaf = "." + parts[2]
+	}
+	m := buildLeaves(obj.Type(), data)
+	d, ok := m[leaf]
+	return d, ok
+}
+
+// buildLeaves transposes dumped data into per-leaf nested arrays (struct-of-arrays)
+func buildLeaves(t types.Type, d interface{}) map[string]interface{} {
+	out := map[string]interface{}{}
+	switch u := t.Underlying().(type) {
+	case *types.Struct:
+		dm, _ := d.(map[string]interface{})
+		for i := 0; i < u.NumFields(); i++ {
+			f := u.Field(i)
+			for lp, v := range buildLeaves(f.Type(), dm[f.Name()]) {
+				out["."+f.Name()+lp] = v
+			}
+		}
+	case *types.Array:
+		dl, _ := d.([]interface{})
+		var parts []map[string]interface{}
+		for i := 0; i < int(u.Len()) && i < len(dl); i++ {
+			parts = append(parts, buildLeaves(u.Elem(), dl[i]))
+		}
+		if len(parts) > 0 {
+			for lp := range parts[0] {
+				arr := make([]interface{}, len(parts))
+				for i := range parts {
+					arr[i] = parts[i][lp]
+				}
+				out[lp] = arr
+			}
+		}
+	case *types.Slice, *types.Pointer, *types.Map, *types.Interface, *types.Signature, *types.Chan:
+		// not representable as a ground table
+	default:
+		out[""] = d
+	}
+	return out
+}
+
+// tableBody renders nested data as an SMT array term
+func (c *Ctx) tableBody(s *Sort, d interface{}) string {
+	switch s.K {
+	case SBV:
+		str, _ := d.(string)
+		v, ok := new(big.Int).SetString(str, 10)
+		if !ok {
+			panic(unsupported{"ground table entry is not an integer: " + fmt.Sprint(d)})
+		}
+		return bvLit(s.W, v).S
+	case SBool:
+		if b, _ := d.(bool); b {
+			return "true"
+		}
+		return "false"
+	case SArray:
+		dl, _ := d.([]interface{})
+		// default element = most frequent rendering, to keep the term small
+		rendered := make([]string, len(dl))
+		freq := map[string]int{}
+		for i, x := range dl {
+			rendered[i] = c.tableBody(s.Elem, x)
+			freq[rendered[i]]++
+		}
+		def, best := "", -1
+		for k, n := range freq {
+			if n > best || n == best && k < def {
+				def, best = k, n
+			}
+		}
+		if def == "" {
+			def = c.zero(s.Elem).S
+		}
+		cur := fmt.Sprintf("((as const %s) %s)", s, def)
+		for i, r := range rendered {
+			if r != def {
+				cur = fmt.Sprintf("(store %s %s %s)", cur, bvLitI(64, int64(i)).S, r)
+			}
+		}
+		return cur
+	}
+	panic(unsupported{"ground table of sort " + s.String()})
+}
+
+// selTable folds a select with a literal index on a registered constant table
+func (c *Ctx) selTable(a Term, i Term) (Term, bool) {
+	tb, ok := c.tables[a.S]
+	if !ok {
+		return Term{}, false
+	}
+	iv, ok := litValue(i)
+	if !ok {
+		return Term{}, false
+	}
+	dl, _ := tb.Data.([]interface{})
+	if !iv.IsInt64() || iv.Int64() < 0 || iv.Int64() >= int64(len(dl)) {
+		return Term{}, false
+	}
+	el := dl[iv.Int64()]
+	es := tb.Sort.Elem
+	if es.K == SArray {
+		name := fmt.Sprintf("%s_%d", a.S, iv.Int64())
+		return c.registerTable(name, es, el), true
+	}
+	return Term{c.tableBody(es, el), es}, true
+}
+
+func (c *Ctx) registerTable(name string, s *Sort, data interface{}) Term {
+	if _, ok := c.tables[name]; ok {
+		return Term{name, s}
+	}
+	c.tables[name] = &Table{Sort: s, Data: data}
+	d := &Def{Name: name, Sort: s, Body: c.tableBody(s, data)}
+	c.defs = append(c.defs, d)
+	c.defIdx[name] = d
+	return Term{name, s}
+}
+
+// ---------------------------------------------------------------------------------------------
+// frozen globals: only package initialisation may write a ground table
+
+func (p *Program) frozenViolations() map[string][]string {
+	// init-only functions: fixpoint over static callers
+	callers := map[*ssa.Function]map[*ssa.Function]bool{}
+	addrTaken := map[*ssa.Function]bool{}
+	var fns []*ssa.Function
+	for _, fn := range p.funcs {
+		fns = append(fns, fn)
+	}
+	for _, fn := range fns {
+		for _, b := range fn.Blocks {
+			for _, in := range b.Instrs {
+				if call, ok := in.(ssa.CallInstruction); ok {
+					if cal := call.Common().StaticCallee(); cal != nil {
+						if callers[cal] == nil {
+							callers[cal] = map[*ssa.Function]bool{}
+						}
+						callers[cal][fn] = true
+					}
+				}
+				for _, op := range in.Operands(nil) {
+					if f, ok := (*op).(*ssa.Function); ok {
+						if call, isCall := in.(ssa.CallInstruction); !isCall || call.Common().Value != *op {
+							addrTaken[f] = true
+						}
+					}
+				}
+			}
+		}
+	}
+	isInit := func(fn *ssa.Function) bool {
+		return fn.Name() == "init" || strings.HasPrefix(fn.Name(), "init#")
+	}
+	initOnly := map[*ssa.Function]bool{}
+	changed := true
+	for changed {
+		changed = false
+		for _, fn := range fns {
+			if initOnly[fn] {
+				continue
+			}
+			if isInit(fn) {
+				initOnly[fn] = true
+				changed = true
+				continue
+			}
+			if addrTaken[fn] || len(callers[fn]) == 0 || fn.Object() != nil && fn.Object().Exported() {
+				continue
+			}
+			all := true
+			for cl := range callers[fn] {
+				if !initOnly[cl] {
+					all = false
+				}
+			}
+			if all {
+				initOnly[fn] = true
+				changed = true
+			}
+		}
+	}
+	out := map[string][]string{}
+	for g := range p.cs.Frozen {
+		out[g] = nil
+	}
+	var rootGlobal func(v ssa.Value, depth int) *ssa.Global
+	rootGlobal = func(v ssa.Value, depth int) *ssa.Global {
+		if depth > 20 {
+			return nil
+		}
+		switch x := v.(type) {
+		case *ssa.Global:
+			return x
+		case *ssa.FieldAddr:
+			return rootGlobal(x.X, depth+1)
+		case *ssa.IndexAddr:
+			return rootGlobal(x.X, depth+1)
+		}
+		return nil
+	}
+	for _, fn := range fns {
+		if initOnly[fn] {
+			continue
+		}
+		for _, b := range fn.Blocks {
+			for _, in := range b.Instrs {
+				check := func(v ssa.Value, what string) {
+					if g := rootGlobal(v, 0); g != nil && g.Pkg != nil {
+						key := globalKey(g)
+						if _, ok := out[key]; ok {
+							out[key] = append(out[key], fmt.Sprintf("%s %s at %s", fullKey(fn), what, p.fset.Position(in.Pos())))
+						}
+					}
+				}
+				switch x := in.(type) {
+				case *ssa.Store:
+					check(x.Addr, "writes")
+					check(x.Val, "stores the address of")
+				case ssa.CallInstruction:
+					for _, a := range x.Common().Args {
+						// passing an address into the table to a callee that is not inlined-pure
+						if _, isPtr := a.Type().Underlying().(*types.Pointer); isPtr {
+							if cal := x.Common().StaticCallee(); cal != nil && writesThroughParam(cal, x.Common().Args, a) {
+								check(a, "passes to a writer the address of")
+							}
+						}
+					}
+				}
+			}
+		}
+	}
+	return out
+}
+
+// writesThroughParam: does callee store through the parameter bound to arg (shallow check)?
+func writesThroughParam(cal *ssa.Function, args []ssa.Value, arg ssa.Value) bool {
+	if len(cal.Blocks) == 0 {
+		return false // library function taking a pointer: (fmt etc.) assumed not to write tables
+	}
+	var prm *ssa.Parameter
+	for i, a := range args {
+		if a == arg && i < len(cal.Params) {
+			prm = cal.Params[i]
+		}
+	}
+	if prm == nil {
+		return true
+	}
+	var derived func(v ssa.Value, d int) bool
+	derived = func(v ssa.Value, d int) bool {
+		if d > 20 {
+			return false
+		}
+		switch x := v.(type) {
+		case *ssa.Parameter:
+			return x == prm
+		case *ssa.FieldAddr:
+			return derived(x.X, d+1)
+		case *ssa.IndexAddr:
+			return derived(x.X, d+1)
+		}
+		return false
+	}
+	for _, b := range cal.Blocks {
+		for _, in := range b.Instrs {
+			switch x := in.(type) {
+			case *ssa.Store:
+				if derived(x.Addr, 0) {
+					return true
+				}
+			case ssa.CallInstruction:
+				for _, a := range x.Common().Args {
+					if derived(a, 0) {
+						if c2 := x.Common().StaticCallee(); c2 == nil || c2 == cal || writesThroughParam(c2, x.Common().Args, a) {
+							return true
+						}
+					}
+				}
+			}
+		}
+	}
+	return false
+}
 
 func (p *Program) groundObligations(verif, prop, tier string) []*Oblig {
-	return nil
+	var out []*Oblig
+	if p.groundErr != nil {
+		out = append(out, &Oblig{Name: "ground#dump", Kind: "ground", Status: "error", Output: p.groundErr.Error()})
+	}
+	// frozen checks for the ground tables used by units of this property
+	fv := p.frozenViolations()
+	var names []string
+	for g := range p.usedGround {
+		names = append(names, g)
+	}
+	sort.Strings(names)
+	for _, g := range names {
+		o := &Oblig{Name: "ground#frozen:" + g, Kind: "frozen", Status: "unsat", Solver: "ssa-scan", Props: []string{prop}}
+		if v := fv[g]; len(v) > 0 {
+			o.Status = "sat"
+			o.Output = "table is written outside package initialisation: " + strings.Join(v, "; ")
+		}
+		out = append(out, o)
+	}
+	return out
+}
+
+// columnTable: for a constant table T of sort idx->(idx->X), the 1-D table  x -> T[x][col]
+func (c *Ctx) columnTable(t Term, tb *Table, col int) (Term, bool) {
+	if tb.Sort.Elem.K != SArray {
+		return Term{}, false
+	}
+	rows, _ := tb.Data.([]interface{})
+	out := make([]interface{}, len(rows))
+	for i, r := range rows {
+		rl, _ := r.([]interface{})
+		if col < 0 || col >= len(rl) {
+			return Term{}, false
+		}
+		out[i] = rl[col]
+	}
+	s := arraySort(tb.Sort.Idx, tb.Sort.Elem.Elem)
+	return c.registerTable(fmt.Sprintf("%s_col%d", t.S, col), s, out), true
 }
